@@ -15,10 +15,13 @@ VALUES = {'short_str': 'abc', 'long_str': 'abcdefghij', 'int': 7, 'bool': True, 
           'seq_badtype': [{'x': 1}], 'dict_value': {'a': 1}, 'none_value': None,
           'zero_int': 0, 'false_bool': False, 'empty_str': '', 'empty_seq': [],
           'seq_long': ['abcdefghij', 'b'], 'seq_bytes': [b'xyz', b'q'],
-          'tup_same': ('a', 'b'), 'tup_long': ('abcdefghij', 'b'), 'tup_bytes': (b'xyz', b'q')}
+          'tup_same': ('a', 'b'), 'tup_long': ('abcdefghij', 'b'), 'tup_bytes': (b'xyz', b'q'),
+          'bytes_long': '\u00e4\u00f6\u00fc\u00e4\u00f6\u00fc\u00e4\u00f6'.encode('utf-8'),
+          'seq_bytes_long': ['\u00e4\u00f6\u00fc\u00e4\u00f6\u00fc\u00e4\u00f6'.encode('utf-8'), b'q']}
 STORED = {'short_str': 'abc', 'cut_str': 'abcde', 'int': 7, 'bool': True, 'float': 1.5, 'decoded_str': 'xyz',
           'tuple_same': ('a', 'b'), 'tuple_with_none': ('a', None), 'zero_int': 0, 'false_bool': False,
-          'empty_str': '', 'empty_tuple': (), 'tuple_cut': ('abcde', 'b'), 'tuple_decoded': ('xyz', 'q')}
+          'empty_str': '', 'empty_tuple': (), 'tuple_cut': ('abcde', 'b'), 'tuple_decoded': ('xyz', 'q'),
+          'decoded_cut_str': '\u00e4\u00f6\u00fc\u00e4\u00f6', 'tuple_decoded_cut': ('\u00e4\u00f6\u00fc\u00e4\u00f6', 'q')}
 STORED_CLASS = {repr((type(v).__name__, v)): k for k, v in STORED.items()}
 KEYS = {'empty_key': '', 'nonstr_key': 5}
 ATTR_INVS = ['WithinCapacity', 'OnlyCleanValues', 'KeysUnique', 'EveryDropCounted']
